@@ -865,6 +865,7 @@ func main() {
 		}
 	}
 	shardSize := 300
+	e2eRuns := 0
 
 	var shard *os.File
 	shardIdx, inShard := -1, 0
@@ -1055,10 +1056,22 @@ func main() {
 			panic(err)
 		}
 		var st struct {
-			Stress int `json:"stress"`
+			Stress int    `json:"stress"`
+			E2E    string `json:"e2e"`
 		}
 		json.Unmarshal(rp.Input, &st)
-		if st.Stress > 0 {
+		if st.E2E != "" {
+			var sc e2eScenario
+			if err := json.Unmarshal(rp.Input, &sc); err != nil {
+				panic(err)
+			}
+			fs, errs, n := e2eLeg([]e2eScenario{sc}, dist)
+			for _, f := range fs {
+				best[f.Signature] = f
+			}
+			errors = append(errors, errs...)
+			evaluations += n
+		} else if st.Stress > 0 {
 			if *racebin == "" {
 				errors = append(errors, "replay of a race finding needs -racebin")
 			} else {
@@ -1120,6 +1133,18 @@ func main() {
 			}
 			dist["dfs-complete:"+pl.cfg.Name] = 1
 		}
+		{
+			// end-to-end: the real Client (runTraditional) against scripted playlists
+			fs, errs, n := e2eLeg(e2eScenarios(*tier), dist)
+			for _, f := range fs {
+				if _, ok := best[f.Signature]; !ok {
+					best[f.Signature] = f
+				}
+			}
+			errors = append(errors, errs...)
+			evaluations += n
+			e2eRuns = n
+		}
 		if *racebin != "" {
 			n := 3000
 			if *tier == "thorough" {
@@ -1172,6 +1197,7 @@ func main() {
 		"errors":                        errors,
 		"traces_validated_against_impl": len(cases),
 		"hook_releases_observed":        hooksObserved,
+		"e2e_scenarios":                 e2eRuns,
 	}
 	j, _ := json.Marshal(res)
 	os.WriteFile(filepath.Join(*out, "result.json"), j, 0o644)
